@@ -32,6 +32,7 @@ type absLayout struct {
 	CRC     bool     `json:"crc"`
 	Unknown []string `json:"unknown"`
 	Pad     int      `json:"pad"`
+	Within  string   `json:"within"`
 }
 
 type content struct {
@@ -41,6 +42,8 @@ type content struct {
 	mult     int
 	att      refmcap.BAttachment
 	md       refmcap.BMetadata
+	att2     refmcap.BAttachment // written after the last part (so that the index groups hold two records each)
+	md2      refmcap.BMetadata
 	profile  []byte
 	library  []byte
 }
@@ -60,6 +63,8 @@ func makeContent(r *rand.Rand, nAbs int) *content {
 	}
 	c.att = refmcap.BAttachment{Log: 3, Create: 4, Name: []byte("att.bin"), Media: []byte("application/x"), Data: []byte("attachment payload")}
 	c.md = refmcap.BMetadata{Name: []byte("meta"), MD: []refmcap.KV{{K: []byte("a"), V: []byte("1")}, {K: []byte("b"), V: []byte("2")}}}
+	c.att2 = refmcap.BAttachment{Log: 9, Create: 1, Name: []byte("second"), Media: nil, Data: []byte{1, 2, 3}}
+	c.md2 = refmcap.BMetadata{Name: []byte("meta2"), MD: []refmcap.KV{{K: []byte("z"), V: nil}}}
 	return c
 }
 
@@ -75,7 +80,7 @@ func hasStr(xs []string, s string) bool {
 // buildLayout lays the content out as the abstract layout says.
 func buildLayout(c *content, l *absLayout, salt int) *refmcap.BFile {
 	f := &refmcap.BFile{Profile: c.profile, Library: c.library, Schemas: c.schemas, Channels: c.channels, SummaryOrder: l.Summary,
-		MessageIndex: l.MsgIdx, SummaryOffsets: l.SumOffs, CRC: l.CRC, Pad: l.Pad, SummaryUnknown: map[string][]refmcap.Unknown{}}
+		MessageIndex: l.MsgIdx, SummaryOffsets: l.SumOffs, CRC: l.CRC, Pad: l.Pad, SummaryUnknown: map[string][]refmcap.Unknown{}, Within: l.Within}
 	f.DefsUpFront = l.Data.Defs == "upfront" || l.Data.Defs == "both"
 	u := func(k int) refmcap.Unknown {
 		ops := []byte{0x10, 0x7f, 0x80, 0xff}
@@ -131,6 +136,7 @@ func buildLayout(c *content, l *absLayout, salt int) *refmcap.BFile {
 			f.Items = append(f.Items, refmcap.Item{Md: &c.md})
 		}
 	}
+	f.Items = append(f.Items, refmcap.Item{Md: &c.md2}, refmcap.Item{Att: &c.att2})
 	if hasStr(l.Unknown, "top2") {
 		x := u(6)
 		f.Items = append(f.Items, refmcap.Item{Unknown: &x})
@@ -181,6 +187,8 @@ func contentCalls(tr *wl.Trace, c *content) {
 	}
 	add(wl.Call{Op: "attachment", Log: c.att.Log, Create: c.att.Create, Name: c.att.Name, Media: c.att.Media, Data: c.att.Data})
 	add(wl.Call{Op: "metadata", Name: c.md.Name, MD: kv(c.md.MD)})
+	add(wl.Call{Op: "metadata", Name: c.md2.Name, MD: kv(c.md2.MD)})
+	add(wl.Call{Op: "attachment", Log: c.att2.Log, Create: c.att2.Create, Name: c.att2.Name, Media: c.att2.Media, Data: c.att2.Data})
 	add(wl.Call{Op: "close"})
 }
 
